@@ -468,20 +468,150 @@ package imperatives
 //@     invariant[orgId] cfg.OrgID == gn_orgId(st, entry(tokPos(t, s)), tokPos(t, s))
 
 //@ // The kafkaMdm and pubsub readers (about 200 lines of option parsing each): panic-freedom only (their options are not specified).
+// ---------------------------------------------------------------- addRoute kafkaMdm (C20): every documented option sets exactly its own parameter
+// kf_X(st, q, p): value of option X after the option tokens from position q up to (not including) p; defaults as documented
+// (bufSize 10M, flushMaxNum 10000, flushMaxWait 500 ms, timeout 2000 ms, everything else off/empty), the latest 'X=' wins, no
+// other option touches X. The six positional words before q are brokers, topic, codec, schemas file, partitionBy and orgId.
+// Observable in the route that is added: topic, orgId, blocking, bufSize, flushMaxNum, flushMaxWait; the other options are
+// followed up to the constructor call (they end up in the Kafka client's configuration).
+//@ smt (declare-fun kf_blocking (Int Int Int) Bool)
+//@ smt (declare-fun kf_bufSize (Int Int Int) Int)
+//@ smt (declare-fun kf_flushMaxNum (Int Int Int) Int)
+//@ smt (declare-fun kf_flushMaxWait (Int Int Int) Int)
+//@ smt (declare-fun kf_timeout (Int Int Int) Int)
+//@ smt (declare-fun kf_tlsEnabled (Int Int Int) Bool)
+//@ smt (declare-fun kf_tlsSkipVerify (Int Int Int) Bool)
+//@ smt (declare-fun kf_tlsClientCert (Int Int Int) Bytes)
+//@ smt (declare-fun kf_tlsClientKey (Int Int Int) Bytes)
+//@ smt (declare-fun kf_saslEnabled (Int Int Int) Bool)
+//@ smt (declare-fun kf_saslMechanism (Int Int Int) Bytes)
+//@ smt (declare-fun kf_saslUsername (Int Int Int) Bytes)
+//@ smt (declare-fun kf_saslPassword (Int Int Int) Bytes)
+//@ spec isKfOpt(k int) bool := k == optBlocking || k == optBufSize || k == optFlushMaxNum || k == optFlushMaxWait || k == optTimeout || k == optTLSEnabled || k == optTLSSkipVerify || k == optTLSClientCert || k == optTLSClientKey || k == optSASLEnabled || k == optSASLMechanism || k == optSASLUsername || k == optSASLPassword
 //@ func readAddRouteKafkaMdm(s *toki.Scanner, table table.Interface) (err error)
-//@   property C14
+//@   property C20,C14
 //@   merge_paths
 //@   requires s != nil && table != nil && table.ref != 0
+//@   let st := s.input
+//@   let L0 := calls(table.AddRoute)
+//@   define forall q int :: kf_blocking(st, q, q) == false
+//@   define forall q int :: forall p int :: p - 2 >= q && tkKind(st, p - 2) == optBlocking ==> kf_blocking(st, q, p) == parseBoolOf(tkVal(st, p - 1))
+//@   define forall q int :: forall p int :: p - 2 >= q && tkKind(st, p - 2) != optBlocking && isKfOpt(tkKind(st, p - 2)) ==> kf_blocking(st, q, p) == kf_blocking(st, q, p - 2)
+//@   define forall q int :: kf_bufSize(st, q, q) == 10000000
+//@   define forall q int :: forall p int :: p - 2 >= q && tkKind(st, p - 2) == optBufSize ==> kf_bufSize(st, q, p) == atoiOf(btrim(tkVal(st, p - 1)))
+//@   define forall q int :: forall p int :: p - 2 >= q && tkKind(st, p - 2) != optBufSize && isKfOpt(tkKind(st, p - 2)) ==> kf_bufSize(st, q, p) == kf_bufSize(st, q, p - 2)
+//@   define forall q int :: kf_flushMaxNum(st, q, q) == 10000
+//@   define forall q int :: forall p int :: p - 2 >= q && tkKind(st, p - 2) == optFlushMaxNum ==> kf_flushMaxNum(st, q, p) == atoiOf(btrim(tkVal(st, p - 1)))
+//@   define forall q int :: forall p int :: p - 2 >= q && tkKind(st, p - 2) != optFlushMaxNum && isKfOpt(tkKind(st, p - 2)) ==> kf_flushMaxNum(st, q, p) == kf_flushMaxNum(st, q, p - 2)
+//@   define forall q int :: kf_flushMaxWait(st, q, q) == 500
+//@   define forall q int :: forall p int :: p - 2 >= q && tkKind(st, p - 2) == optFlushMaxWait ==> kf_flushMaxWait(st, q, p) == atoiOf(btrim(tkVal(st, p - 1)))
+//@   define forall q int :: forall p int :: p - 2 >= q && tkKind(st, p - 2) != optFlushMaxWait && isKfOpt(tkKind(st, p - 2)) ==> kf_flushMaxWait(st, q, p) == kf_flushMaxWait(st, q, p - 2)
+//@   define forall q int :: kf_timeout(st, q, q) == 2000
+//@   define forall q int :: forall p int :: p - 2 >= q && tkKind(st, p - 2) == optTimeout ==> kf_timeout(st, q, p) == atoiOf(btrim(tkVal(st, p - 1)))
+//@   define forall q int :: forall p int :: p - 2 >= q && tkKind(st, p - 2) != optTimeout && isKfOpt(tkKind(st, p - 2)) ==> kf_timeout(st, q, p) == kf_timeout(st, q, p - 2)
+//@   define forall q int :: kf_tlsEnabled(st, q, q) == false
+//@   define forall q int :: forall p int :: p - 2 >= q && tkKind(st, p - 2) == optTLSEnabled ==> kf_tlsEnabled(st, q, p) == parseBoolOf(tkVal(st, p - 1))
+//@   define forall q int :: forall p int :: p - 2 >= q && tkKind(st, p - 2) != optTLSEnabled && isKfOpt(tkKind(st, p - 2)) ==> kf_tlsEnabled(st, q, p) == kf_tlsEnabled(st, q, p - 2)
+//@   define forall q int :: kf_tlsSkipVerify(st, q, q) == false
+//@   define forall q int :: forall p int :: p - 2 >= q && tkKind(st, p - 2) == optTLSSkipVerify ==> kf_tlsSkipVerify(st, q, p) == parseBoolOf(tkVal(st, p - 1))
+//@   define forall q int :: forall p int :: p - 2 >= q && tkKind(st, p - 2) != optTLSSkipVerify && isKfOpt(tkKind(st, p - 2)) ==> kf_tlsSkipVerify(st, q, p) == kf_tlsSkipVerify(st, q, p - 2)
+//@   define forall q int :: kf_tlsClientCert(st, q, q) == ""
+//@   define forall q int :: forall p int :: p - 2 >= q && tkKind(st, p - 2) == optTLSClientCert ==> kf_tlsClientCert(st, q, p) == tkVal(st, p - 1)
+//@   define forall q int :: forall p int :: p - 2 >= q && tkKind(st, p - 2) != optTLSClientCert && isKfOpt(tkKind(st, p - 2)) ==> kf_tlsClientCert(st, q, p) == kf_tlsClientCert(st, q, p - 2)
+//@   define forall q int :: kf_tlsClientKey(st, q, q) == ""
+//@   define forall q int :: forall p int :: p - 2 >= q && tkKind(st, p - 2) == optTLSClientKey ==> kf_tlsClientKey(st, q, p) == tkVal(st, p - 1)
+//@   define forall q int :: forall p int :: p - 2 >= q && tkKind(st, p - 2) != optTLSClientKey && isKfOpt(tkKind(st, p - 2)) ==> kf_tlsClientKey(st, q, p) == kf_tlsClientKey(st, q, p - 2)
+//@   define forall q int :: kf_saslEnabled(st, q, q) == false
+//@   define forall q int :: forall p int :: p - 2 >= q && tkKind(st, p - 2) == optSASLEnabled ==> kf_saslEnabled(st, q, p) == parseBoolOf(tkVal(st, p - 1))
+//@   define forall q int :: forall p int :: p - 2 >= q && tkKind(st, p - 2) != optSASLEnabled && isKfOpt(tkKind(st, p - 2)) ==> kf_saslEnabled(st, q, p) == kf_saslEnabled(st, q, p - 2)
+//@   define forall q int :: kf_saslMechanism(st, q, q) == ""
+//@   define forall q int :: forall p int :: p - 2 >= q && tkKind(st, p - 2) == optSASLMechanism ==> kf_saslMechanism(st, q, p) == tkVal(st, p - 1)
+//@   define forall q int :: forall p int :: p - 2 >= q && tkKind(st, p - 2) != optSASLMechanism && isKfOpt(tkKind(st, p - 2)) ==> kf_saslMechanism(st, q, p) == kf_saslMechanism(st, q, p - 2)
+//@   define forall q int :: kf_saslUsername(st, q, q) == ""
+//@   define forall q int :: forall p int :: p - 2 >= q && tkKind(st, p - 2) == optSASLUsername ==> kf_saslUsername(st, q, p) == tkVal(st, p - 1)
+//@   define forall q int :: forall p int :: p - 2 >= q && tkKind(st, p - 2) != optSASLUsername && isKfOpt(tkKind(st, p - 2)) ==> kf_saslUsername(st, q, p) == kf_saslUsername(st, q, p - 2)
+//@   define forall q int :: kf_saslPassword(st, q, q) == ""
+//@   define forall q int :: forall p int :: p - 2 >= q && tkKind(st, p - 2) == optSASLPassword ==> kf_saslPassword(st, q, p) == tkVal(st, p - 1)
+//@   define forall q int :: forall p int :: p - 2 >= q && tkKind(st, p - 2) != optSASLPassword && isKfOpt(tkKind(st, p - 2)) ==> kf_saslPassword(st, q, p) == kf_saslPassword(st, q, p - 2)
 //@   modifies *
+//@   ensures[nothing_added_on_error; C20] err != nil ==> calls(table.AddRoute) == L0
+//@   ensures[one_route_added; C20] err == nil ==> llen(calls(table.AddRoute)) == llen(L0) + 1 && typeIs(psRoute(lget(calls(table.AddRoute), llen(L0))), *route.KafkaMdm)
+//@   ensures[each_option_its_own; C20] err == nil ==> (exists q int :: as(psRoute(lget(calls(table.AddRoute), llen(L0))), *route.KafkaMdm).topic == tkVal(st, q - 5) && as(psRoute(lget(calls(table.AddRoute), llen(L0))), *route.KafkaMdm).orgId == atoiOf(btrim(tkVal(st, q - 1)))
+//@        && as(psRoute(lget(calls(table.AddRoute), llen(L0))), *route.KafkaMdm).blocking == kf_blocking(st, q, s.pos) && as(psRoute(lget(calls(table.AddRoute), llen(L0))), *route.KafkaMdm).bufSize == kf_bufSize(st, q, s.pos) && as(psRoute(lget(calls(table.AddRoute), llen(L0))), *route.KafkaMdm).flushMaxNum == kf_flushMaxNum(st, q, s.pos)
+//@        && as(psRoute(lget(calls(table.AddRoute), llen(L0))), *route.KafkaMdm).flushMaxWait == mul64(kf_flushMaxWait(st, q, s.pos), 1000000))
 //@   loop 1:
-//@     invariant[scan] t != nil
+//@     invariant[scan] s.input == st && t != nil && t.Token == tkKind(st, tokPos(t, s)) && tokPos(t, s) >= entry(tokPos(t, s)) && calls(table.AddRoute) == L0
+//@     invariant[positional] topic == tkVal(st, entry(tokPos(t, s)) - 5) && codec == tkVal(st, entry(tokPos(t, s)) - 4) && schemasFile == tkVal(st, entry(tokPos(t, s)) - 3)
+//@        && partitionBy == tkVal(st, entry(tokPos(t, s)) - 2) && orgId == atoiOf(btrim(tkVal(st, entry(tokPos(t, s)) - 1)))
+//@     invariant[blocking] blocking == kf_blocking(st, entry(tokPos(t, s)), tokPos(t, s))
+//@     invariant[bufSize] bufSize == kf_bufSize(st, entry(tokPos(t, s)), tokPos(t, s))
+//@     invariant[flushMaxNum] flushMaxNum == kf_flushMaxNum(st, entry(tokPos(t, s)), tokPos(t, s))
+//@     invariant[flushMaxWait] flushMaxWait == kf_flushMaxWait(st, entry(tokPos(t, s)), tokPos(t, s))
+//@     invariant[timeout] timeout == kf_timeout(st, entry(tokPos(t, s)), tokPos(t, s))
+//@     invariant[tlsEnabled] tlsEnabled == kf_tlsEnabled(st, entry(tokPos(t, s)), tokPos(t, s))
+//@     invariant[tlsSkipVerify] tlsSkipVerify == kf_tlsSkipVerify(st, entry(tokPos(t, s)), tokPos(t, s))
+//@     invariant[tlsClientCert] tlsClientCert == kf_tlsClientCert(st, entry(tokPos(t, s)), tokPos(t, s))
+//@     invariant[tlsClientKey] tlsClientKey == kf_tlsClientKey(st, entry(tokPos(t, s)), tokPos(t, s))
+//@     invariant[saslEnabled] saslEnabled == kf_saslEnabled(st, entry(tokPos(t, s)), tokPos(t, s))
+//@     invariant[saslMechanism] saslMechanism == kf_saslMechanism(st, entry(tokPos(t, s)), tokPos(t, s))
+//@     invariant[saslUsername] saslUsername == kf_saslUsername(st, entry(tokPos(t, s)), tokPos(t, s))
+//@     invariant[saslPassword] saslPassword == kf_saslPassword(st, entry(tokPos(t, s)), tokPos(t, s))
+// ---------------------------------------------------------------- addRoute pubsub (C20): every documented option sets exactly its own parameter
+// ps_X(st, q, p): value of option X after the option tokens from position q up to (not including) p; defaults as documented
+// (codec gzip, format plain, bufSize 10M, flushMaxSize 10M-4096, flushMaxWait 1000 ms, blocking false), the latest 'X=' wins,
+// no other option touches X. The two positional words before q are the project and the topic.
+//@ smt (declare-fun ps_codec (Int Int Int) Bytes)
+//@ smt (declare-fun ps_format (Int Int Int) Bytes)
+//@ smt (declare-fun ps_blocking (Int Int Int) Bool)
+//@ smt (declare-fun ps_bufSize (Int Int Int) Int)
+//@ smt (declare-fun ps_flushMaxSize (Int Int Int) Int)
+//@ smt (declare-fun ps_flushMaxWait (Int Int Int) Int)
+//@ spec isPsOpt(k int) bool := k == optPubSubCodec || k == optPubSubFormat || k == optBlocking || k == optBufSize || k == optPubSubFlushMaxSize || k == optFlushMaxWait
+//@ spec psRoute(e elem) route.Route := mkiface(eIv(eP1(eP1(e))), eIv(eP2(eP1(e))))
 //@ func readAddRoutePubSub(s *toki.Scanner, table table.Interface) (err error)
-//@   property C14
+//@   property C20,C14
 //@   merge_paths
 //@   requires s != nil && table != nil && table.ref != 0
+//@   let st := s.input
+//@   let L0 := calls(table.AddRoute)
+//@   define forall q int :: ps_codec(st, q, q) == "gzip"
+//@   define forall q int :: forall p int :: p - 2 >= q && tkKind(st, p - 2) == optPubSubCodec ==> ps_codec(st, q, p) == tkVal(st, p - 1)
+//@   define forall q int :: forall p int :: p - 2 >= q && tkKind(st, p - 2) != optPubSubCodec && isPsOpt(tkKind(st, p - 2)) ==> ps_codec(st, q, p) == ps_codec(st, q, p - 2)
+//@   define forall q int :: ps_format(st, q, q) == "plain"
+//@   define forall q int :: forall p int :: p - 2 >= q && tkKind(st, p - 2) == optPubSubFormat ==> ps_format(st, q, p) == tkVal(st, p - 1)
+//@   define forall q int :: forall p int :: p - 2 >= q && tkKind(st, p - 2) != optPubSubFormat && isPsOpt(tkKind(st, p - 2)) ==> ps_format(st, q, p) == ps_format(st, q, p - 2)
+//@   define forall q int :: ps_blocking(st, q, q) == false
+//@   define forall q int :: forall p int :: p - 2 >= q && tkKind(st, p - 2) == optBlocking ==> ps_blocking(st, q, p) == parseBoolOf(tkVal(st, p - 1))
+//@   define forall q int :: forall p int :: p - 2 >= q && tkKind(st, p - 2) != optBlocking && isPsOpt(tkKind(st, p - 2)) ==> ps_blocking(st, q, p) == ps_blocking(st, q, p - 2)
+//@   define forall q int :: ps_bufSize(st, q, q) == 10000000
+//@   define forall q int :: forall p int :: p - 2 >= q && tkKind(st, p - 2) == optBufSize ==> ps_bufSize(st, q, p) == atoiOf(btrim(tkVal(st, p - 1)))
+//@   define forall q int :: forall p int :: p - 2 >= q && tkKind(st, p - 2) != optBufSize && isPsOpt(tkKind(st, p - 2)) ==> ps_bufSize(st, q, p) == ps_bufSize(st, q, p - 2)
+//@   define forall q int :: ps_flushMaxSize(st, q, q) == 9995904
+//@   define forall q int :: forall p int :: p - 2 >= q && tkKind(st, p - 2) == optPubSubFlushMaxSize ==> ps_flushMaxSize(st, q, p) == atoiOf(btrim(tkVal(st, p - 1)))
+//@   define forall q int :: forall p int :: p - 2 >= q && tkKind(st, p - 2) != optPubSubFlushMaxSize && isPsOpt(tkKind(st, p - 2)) ==> ps_flushMaxSize(st, q, p) == ps_flushMaxSize(st, q, p - 2)
+//@   define forall q int :: ps_flushMaxWait(st, q, q) == 1000
+//@   define forall q int :: forall p int :: p - 2 >= q && tkKind(st, p - 2) == optFlushMaxWait ==> ps_flushMaxWait(st, q, p) == atoiOf(btrim(tkVal(st, p - 1)))
+//@   define forall q int :: forall p int :: p - 2 >= q && tkKind(st, p - 2) != optFlushMaxWait && isPsOpt(tkKind(st, p - 2)) ==> ps_flushMaxWait(st, q, p) == ps_flushMaxWait(st, q, p - 2)
 //@   modifies *
+//@   ensures[nothing_added_on_error; C20] err != nil ==> calls(table.AddRoute) == L0
+//@   ensures[one_route_added; C20] err == nil ==> llen(calls(table.AddRoute)) == llen(L0) + 1 && typeIs(psRoute(lget(calls(table.AddRoute), llen(L0))), *route.PubSub)
+//@   ensures[each_option_its_own; C20] err == nil ==> (exists q int :: as(psRoute(lget(calls(table.AddRoute), llen(L0))), *route.PubSub).project == tkVal(st, q - 2)
+//@        && as(psRoute(lget(calls(table.AddRoute), llen(L0))), *route.PubSub).topic == tkVal(st, q - 1)
+//@        && as(psRoute(lget(calls(table.AddRoute), llen(L0))), *route.PubSub).codec == ps_codec(st, q, s.pos)
+//@        && as(psRoute(lget(calls(table.AddRoute), llen(L0))), *route.PubSub).format == ps_format(st, q, s.pos)
+//@        && as(psRoute(lget(calls(table.AddRoute), llen(L0))), *route.PubSub).blocking == ps_blocking(st, q, s.pos)
+//@        && as(psRoute(lget(calls(table.AddRoute), llen(L0))), *route.PubSub).bufSize == ps_bufSize(st, q, s.pos)
+//@        && as(psRoute(lget(calls(table.AddRoute), llen(L0))), *route.PubSub).flushMaxSize == ps_flushMaxSize(st, q, s.pos)
+//@        && as(psRoute(lget(calls(table.AddRoute), llen(L0))), *route.PubSub).flushMaxWait == mul64(ps_flushMaxWait(st, q, s.pos), 1000000))
 //@   loop 1:
-//@     invariant[scan] t != nil
+//@     invariant[scan] s.input == st && t != nil && t.Token == tkKind(st, tokPos(t, s)) && tokPos(t, s) >= entry(tokPos(t, s)) && calls(table.AddRoute) == L0
+//@     invariant[positional] project == tkVal(st, entry(tokPos(t, s)) - 2) && topic == tkVal(st, entry(tokPos(t, s)) - 1)
+//@     invariant[codec] codec == ps_codec(st, entry(tokPos(t, s)), tokPos(t, s))
+//@     invariant[format] format == ps_format(st, entry(tokPos(t, s)), tokPos(t, s))
+//@     invariant[blocking] blocking == ps_blocking(st, entry(tokPos(t, s)), tokPos(t, s))
+//@     invariant[bufSize] bufSize == ps_bufSize(st, entry(tokPos(t, s)), tokPos(t, s))
+//@     invariant[flushMaxSize] flushMaxSize == ps_flushMaxSize(st, entry(tokPos(t, s)), tokPos(t, s))
+//@     invariant[flushMaxWait] flushMaxWait == ps_flushMaxWait(st, entry(tokPos(t, s)), tokPos(t, s))
 //@
 //@ // Apply: one admin / init command. Whatever the command text, the dispatcher and the readers under contract do not panic.
 //@ extern func toki.NewScanner(def []toki.Def) *toki.Scanner
